@@ -14,7 +14,7 @@ import (
 
 func c13CLIGen(t *rapid.T) statCase {
 	c := genStatCase(t)
-	c.Alpha = rapid.SampledFrom([]float64{0.001, 0.01, 0.1, 0.2, 0.5, 1}).Draw(t, "cli_alpha")
+	c.Alpha = rapid.SampledFrom([]float64{0.001, 0.01, 0.1, 0.2, 0.5, 1, -1}).Draw(t, "cli_alpha")
 	return c
 }
 
